@@ -110,9 +110,15 @@ def is_well_posed(cfg):
                 dx = cfg['devs'][x - 1]
                 if dx['kind'] == 'buffer' and dx['cap'] == -1:
                     return False
+                if dx['kind'] == 'sink' and dx['cyc'] == 0:
+                    return False        # a sink that takes parts in no time at the end of a zero-time path
                 if dx['kind'] in ('gate', 'junction', 'gpath'):
                     front += [y['id'] for y in cfg['devs'] if x in y['ups']]
                 elif dx['kind'] == 'batcher':
+                    front += [y['id'] for y in cfg['devs'] if x in y['ups']]
+                elif dx['kind'] in ('handler', 'processor') and dx['cyc'] == 0:
+                    front += [y['id'] for y in cfg['devs'] if x in y['ups']]
+                elif dx['kind'] == 'buffer' and dx['delay'] == 0:
                     front += [y['id'] for y in cfg['devs'] if x in y['ups']]
     return True
 
@@ -132,7 +138,7 @@ def gen_serial(rng, n_max=3, count=200, horizon=(8, 16, 24), budgets=(1, 2, 3, 5
             dl = rng.choice([1, 2, 5, 8, 10])
             params[i] = dict(cap=rng.choice([1, 2, 3, -1]), delay=dl)
             params[i + 1] = dict(cyc=dl + rng.choice([-1, 1, 1, 2, 3]))
-        cfg = serial(kinds, params, src(rng.choice([0, 1, 2, 4]), rng.choice(budgets), pval=rng.choice([0, 1, 3])),
+        cfg = serial(kinds, params, src(rng.choice([0, 1, 2, 4]), rng.choice(budgets), pval=rng.choice([0, 1, 3, -2])),
                      rng.choice([0, 1, 3]), rng.choice(horizon))
         if is_well_posed(cfg):
             cfg['family'] = 'serial'
@@ -185,7 +191,7 @@ def gen_parallel(rng, count=100):
     out = []
     while len(out) < count:
         nsrc = rng.choice([1, 1, 2])
-        devs = [src(rng.choice([1, 2, 2, 4]), rng.choice([2, 3, 5, -1]), pval=rng.choice([0, 1])) for _ in range(nsrc)]
+        devs = [src(rng.choice([1, 2, 2, 4]), rng.choice([2, 3, 5, -1]), pval=rng.choice([0, 1, 1, -1])) for _ in range(nsrc)]
         srcs = list(range(1, nsrc + 1))
         first = [srcs]
         if rng.random() < 0.4:
@@ -404,7 +410,7 @@ def gen_targeted(rng, count=60):
         elif kind == 5 and i % 16 == 13:  # work orders (also two tags on one machine, failures during the order)
             devs = [src(rng.choice([1, 2]), rng.choice([4, 6, -1]), pval=1),
                     dev('processor', [1], cyc=rng.choice([2, 3, 6]), wodur=rng.choice([2, 3, 5]), wocap=rng.choice([0, 0, 1]),
-                        wocost=rng.choice([0, 2])),
+                        wocost=rng.choice([0, 2, -1])),
                     dev('processor', [2], cyc=rng.choice([1, 2]), wodur=rng.choice([0, 1, 4]), wocap=rng.choice([0, 1, 2]), wocost=1),
                     dev('sink', [3], cyc=0)]
             t1 = rng.choice([2, 3, 5])
@@ -471,7 +477,7 @@ def gen_cbm(rng, count=24):
             return dev('processor', ups, cyc=rng.choice([1, 2, 3]), wear=rng.choice([1, 1, 2]),
                        sint=rng.choice([-1, 0, 0, 1, 2, 3]), pint=rng.choice([0, 0, 3, 4, 5, 7]),
                        scap=rng.choice([-1, -1, 1, 2, 3]), thr=rng.choice([0, 2, 3, 4, 6]),
-                       wodur=rng.choice([0, 2, 3, 5]), wocap=rng.choice([0, 1, 1]), wocost=rng.choice([0, 1]),
+                       wodur=rng.choice([0, 2, 3, 5]), wocap=rng.choice([0, 1, 1]), wocost=rng.choice([0, 1, -1]),
                        req=rng.choice([{}, {}, {'A': 1}]))
         shape = i % 4
         s = src(rng.choice([1, 2, 3]), rng.choice([6, 9, 12, -1]), pval=1)
@@ -510,7 +516,7 @@ def gen_batch(rng, count=60):
     out = []
     while len(out) < count:
         bsrc = rng.choice([-1, -1, 1, 2, 3, 3, 0])
-        devs = [src(rng.choice([1, 2, 3]), rng.choice([4, 6, 9, -1]), pval=rng.choice([0, 1, 2]), bsrc=bsrc)]
+        devs = [src(rng.choice([1, 2, 3]), rng.choice([4, 6, 9, -1]), pval=rng.choice([0, 1, 2, -1]), bsrc=bsrc)]
         devs[0]['bmix'] = bsrc > 0 and rng.random() < 0.4
         shape = rng.choice(['b', 'bb', 'buf-b', 'b-buf-b', 'b-proc-b', 'buf-b-buf', 'b-jun-slow', 'b-jun-slow', 'buf', 'buf', 'mixbuf'])
         biggest = max(bsrc, 1)
@@ -545,14 +551,14 @@ def gen_batch(rng, count=60):
                     cap = max(cap, biggest, 1)
                 devs.append(dev('buffer', up, cap=cap, delay=rng.choice([0, 0, 1, 2, 5, 10])))
             elif tok == 'proc':
-                devs.append(dev('processor', up, cyc=rng.choice([1, 2, 3]), vadd=rng.choice([0, 1])))
+                devs.append(dev('processor', up, cyc=rng.choice([1, 2, 3]), vadd=rng.choice([0, 1, -1])))
             elif tok == 'jun':
                 devs.append(dev(rng.choice(['junction', 'gate']), up))
             elif tok == 'slow':
                 devs.append(dev('processor', up, cyc=rng.choice([5, 7, 9])))
         if bsrc == 0 and devs[1]['kind'] != 'batcher':
             continue
-        devs.append(dev('sink', [len(devs)], cyc=rng.choice([0, 0, 1, 3]), vadd=rng.choice([0, 0, 2])))
+        devs.append(dev('sink', [len(devs)], cyc=rng.choice([0, 0, 1, 3]), vadd=rng.choice([0, 0, 2, -1])))
         script = []
         if rng.random() < 0.4:
             tgt = rng.choice([d for d in range(2, len(devs) + 1)])
